@@ -8,6 +8,36 @@ def Inv (s : S) : Prop :=
 
 theorem inv_init (pin : Option (List Nat)) : Inv { pin := pin } := by simp [Inv]
 
+/-- a verification changes nothing but the digester's state -/
+theorem verify_fields (dir : Bool) (s : S) (a : Bool) :
+    (verify dir s a).1.ended = s.ended ∧ (verify dir s a).1.written = s.written ∧ (verify dir s a).1.published = s.published ∧
+    (verify dir s a).1.pin = s.pin ∧ (verify dir s a).1.fclosed = s.fclosed := by
+  simp [verify]
+
+theorem verifyBad_fields (dir : Bool) (s : S) :
+    (verifyBad dir s).ended = s.ended ∧ (verifyBad dir s).written = s.written ∧ (verifyBad dir s).published = s.published ∧
+    (verifyBad dir s).pin = s.pin ∧ (verifyBad dir s).fclosed = s.fclosed := by
+  simp [verifyBad]
+
+theorem inv_congr (s t : S) (he : t.ended = s.ended) (hw : t.written = s.written) (hp : t.published = s.published)
+    (hpin : t.pin = s.pin) (h : Inv s) : Inv t := by
+  unfold Inv at *
+  rw [he, hw, hp, hpin]; exact h
+
+/-- a successful verification against the digest of the accepted bytes (first algorithm) implies the pin check -/
+theorem verify_ok_pinOk (dir : Bool) (s : S) (h : (verify dir s false).2 = .ok) : pinOk (verify dir s false).1 = true := by
+  have hf := verify_fields dir s false
+  unfold pinOk
+  rw [hf.2.2.2.1, hf.2.1]
+  simp only [verify, verifyCore] at h
+  cases hp : s.pin with
+  | none => rfl
+  | some p =>
+    simp only [hp, Bool.not_false, Bool.true_and] at h ⊢
+    by_cases hq : (p == s.written) = true
+    · exact hq
+    · simp [hq] at h
+
 theorem pinOk_spec (s : S) (h : pinOk s = true) : s.pin = none ∨ s.pin = some s.written := by
   unfold pinOk at h
   cases hp : s.pin with
@@ -66,13 +96,26 @@ theorem step_inv (dir : Bool) (s : S) (o : Op) (h : Inv s) : Inv (step dir s o).
         | false => rfl
         | true => exact absurd (Or.inl hE) hc
       exact inv_of_nil s _ (h.1 he')
-  | vbad => exact h
-  | vgood => exact h
+  | vbad =>
+    have hf := verifyBad_fields dir s
+    exact inv_congr s _ hf.1 hf.2.1 hf.2.2.1 hf.2.2.2.1 h
+  | vgood =>
+    have hf := verify_fields dir s false
+    exact inv_congr s _ hf.1 hf.2.1 hf.2.2.1 hf.2.2.2.1 h
+  | vgoodAlt =>
+    have hf := verify_fields dir s true
+    exact inv_congr s _ hf.1 hf.2.1 hf.2.2.1 hf.2.2.2.1 h
   | close =>
+    have hf := verify_fields dir s false
+    have hv : Inv (verify dir s false).1 := inv_congr s _ hf.1 hf.2.1 hf.2.2.1 hf.2.2.2.1 h
     simp only [step]
     split
-    · exact closeRaw_inv dir s h
-    · exact h
+    · rename_i s1 heq
+      have : s1 = (verify dir s false).1 := by rw [heq]
+      rw [this]; exact closeRaw_inv dir _ hv
+    · rename_i s1 heq
+      have : s1 = (verify dir s false).1 := by rw [heq]
+      rw [this]; exact hv
   | closeRaw => exact closeRaw_inv dir s h
   | cancel =>
     simp only [step]
@@ -106,13 +149,34 @@ theorem step_ended (dir : Bool) (s : S) (o : Op) (he : s.ended = true) :
       · split
         · exact ⟨he, rfl⟩
         · have := publish_fields { s with fclosed := true, ended := true }; exact ⟨this.1, this.2.1⟩
+  have hcr' : ∀ t : S, t.ended = true → (closeRaw dir t).1.ended = true ∧ (closeRaw dir t).1.written = t.written := by
+    intro t ht
+    unfold closeRaw
+    cases dir <;> simp only [Bool.false_eq_true, ↓reduceIte]
+    · split
+      · exact ⟨ht, rfl⟩
+      · have := publish_fields { t with ended := true }; exact ⟨this.1, this.2.1⟩
+    · split
+      · exact ⟨ht, rfl⟩
+      · split
+        · exact ⟨ht, rfl⟩
+        · have := publish_fields { t with fclosed := true, ended := true }; exact ⟨this.1, this.2.1⟩
   cases o with
   | w c => simp [step, he]
-  | vbad => simp [step, he]
-  | vgood => simp [step, he]
-  | close => simp only [step]; split
-             · exact hcr
-             · exact ⟨he, rfl⟩
+  | vbad => have hf := verifyBad_fields dir s; exact ⟨hf.1.trans he, hf.2.1⟩
+  | vgood => have hf := verify_fields dir s false; exact ⟨hf.1.trans he, hf.2.1⟩
+  | vgoodAlt => have hf := verify_fields dir s true; exact ⟨hf.1.trans he, hf.2.1⟩
+  | close =>
+    have hf := verify_fields dir s false
+    simp only [step]
+    split
+    · rename_i s1 heq
+      have e1 : s1 = (verify dir s false).1 := by rw [heq]
+      have := hcr' s1 (by rw [e1]; exact hf.1.trans he)
+      exact ⟨this.1, this.2.trans (by rw [e1]; exact hf.2.1)⟩
+    · rename_i s1 heq
+      have e1 : s1 = (verify dir s false).1 := by rw [heq]
+      rw [e1]; exact ⟨hf.1.trans he, hf.2.1⟩
   | closeRaw => exact hcr
   | cancel => simp [step]
 
@@ -147,15 +211,23 @@ theorem closeRaw_mono (dir : Bool) (s : S) (p : List Nat) (hp : p ∈ s.publishe
 /-- published contents are never withdrawn by the object -/
 theorem step_published_mono (dir : Bool) (s : S) (o : Op) (p : List Nat) (hp : p ∈ s.published) :
     p ∈ (step dir s o).1.published := by
-  cases o <;> simp only [step]
-  · split <;> exact hp
-  · exact hp
-  · exact hp
-  · split
-    · exact closeRaw_mono dir s p hp
-    · exact hp
-  · exact closeRaw_mono dir s p hp
-  · exact hp
+  cases o with
+  | w c => simp only [step]; split <;> exact hp
+  | vbad => simp only [step]; rw [(verifyBad_fields dir s).2.2.1]; exact hp
+  | vgood => simp only [step]; rw [(verify_fields dir s false).2.2.1]; exact hp
+  | vgoodAlt => simp only [step]; rw [(verify_fields dir s true).2.2.1]; exact hp
+  | close =>
+    have hf := verify_fields dir s false
+    simp only [step]
+    split
+    · rename_i s1 heq
+      have e1 : s1 = (verify dir s false).1 := by rw [heq]
+      exact closeRaw_mono dir s1 p (by rw [e1, hf.2.2.1]; exact hp)
+    · rename_i s1 heq
+      have e1 : s1 = (verify dir s false).1 := by rw [heq]
+      rw [e1, hf.2.2.1]; exact hp
+  | closeRaw => exact closeRaw_mono dir s p hp
+  | cancel => exact hp
 
 /-- a write is refused exactly when the session has ended or (directory store) its temporary file is closed -/
 theorem write_refused_iff (dir : Bool) (s : S) (c : Nat) :
@@ -175,12 +247,35 @@ theorem step_pin (dir : Bool) (s : S) (o : Op) : (step dir s o).1.pin = s.pin :=
       · split
         · rfl
         · exact (publish_fields _).2.2.1
-  cases o <;> simp only [step]
-  · split <;> rfl
-  · split
-    · exact hcr
-    · rfl
-  · exact hcr
+  have hcr' : ∀ t : S, (closeRaw dir t).1.pin = t.pin := by
+    intro t
+    unfold closeRaw
+    cases dir <;> simp only [Bool.false_eq_true, ↓reduceIte]
+    · split
+      · rfl
+      · exact (publish_fields _).2.2.1
+    · split
+      · rfl
+      · split
+        · rfl
+        · exact (publish_fields _).2.2.1
+  cases o with
+  | w c => simp only [step]; split <;> rfl
+  | vbad => exact (verifyBad_fields dir s).2.2.2.1
+  | vgood => exact (verify_fields dir s false).2.2.2.1
+  | vgoodAlt => exact (verify_fields dir s true).2.2.2.1
+  | close =>
+    have hf := verify_fields dir s false
+    simp only [step]
+    split
+    · rename_i s1 heq
+      have e1 : s1 = (verify dir s false).1 := by rw [heq]
+      rw [hcr' s1, e1]; exact hf.2.2.2.1
+    · rename_i s1 heq
+      have e1 : s1 = (verify dir s false).1 := by rw [heq]
+      rw [e1]; exact hf.2.2.2.1
+  | closeRaw => exact hcr
+  | cancel => rfl
 
 theorem run_pin (dir : Bool) (os : List Op) : ∀ s, (run dir s os).1.pin = s.pin := by
   induction os with
